@@ -282,6 +282,9 @@ class scrypt(  # type: ignore[misc]
             raise NotImplementedError(
                 "scrypt $7$ hashes dont support non-ascii salts"
             ) from None
+        if b"$" in salt:
+            # the salt is stored verbatim, "$" ends the field
+            raise ValueError("scrypt $7$ hashes dont support salts containing '$'")
         return bascii_to_str(
             b"".join(
                 [
